@@ -119,10 +119,11 @@ func (r *RevH) Nest(ctx context.Context, arg int) (int, error) {
 
 // FwdAPI is the forward API of the scenario server (namespace "RS").
 type FwdAPI struct {
-	Flood func(context.Context, Spec) (Out, error)
-	Has   func(context.Context) (bool, error)
-	Run   func(context.Context, Spec) (Out, error)
-	Add   func(int, int) (int, error)
+	RunNote func(Spec) `notify:"true" rpc_method:"RS.Run"`
+	Flood   func(context.Context, Spec) (Out, error)
+	Has     func(context.Context) (bool, error)
+	Run     func(context.Context, Spec) (Out, error)
+	Add     func(int, int) (int, error)
 }
 
 type Spec struct {
@@ -677,6 +678,50 @@ func NotifyGone(res *fw.Result, seed int64, kind string, base int) error {
 	return nil
 }
 
+// NotifyReverse: the handler of a *notification* makes reverse calls — the answers to those calls arrive
+// as frames on the very connection whose executor dispatched the notification, so they can only be
+// correlated if the notification's handler does not run on the executor.
+func NotifyReverse(res *fw.Result, seed int64, base int) error {
+	w, err := newWorld(seed, true)
+	if err != nil {
+		return err
+	}
+	defer w.close()
+	c, err := w.connect(true)
+	if err != nil {
+		return err
+	}
+	sig := "reverse calls from the handler of a notification"
+	tok := base + 3
+	c.api.RunNote(Spec{Tok: tok, N: 2, Method: "Ident"})
+	out, ok := w.rs.result(tok, 3*time.Second)
+	if !ok {
+		res.Add(fw.Finding{Kind: "monitor", Signature: sig + " blocked", Detail: "reverse calls made by the handler of a notify-tagged forward call did not complete within 3s on a healthy connection",
+			Case: map[string]interface{}{"scenario": "notify-reverse"}})
+	} else {
+		if !out.Present {
+			res.Add(fw.Finding{Kind: "monitor", Signature: sig + " no reverse client", Detail: "the handler of a notification over WebSocket found no reverse client in its context", Case: map[string]interface{}{"scenario": "notify-reverse"}})
+		}
+		for _, o := range out.Calls {
+			judge(res, sig, c.id, "Ident", o)
+		}
+	}
+	// the connection still serves ordinary calls afterwards
+	done := make(chan error, 1)
+	go func() { _, err := c.api.Add(1, 2); done <- err }()
+	select {
+	case err := <-done:
+		if err != nil {
+			res.Add(fw.Finding{Kind: "monitor", Signature: sig + " later call fails", Detail: "an ordinary call after the notification failed: " + err.Error(), Case: map[string]interface{}{"scenario": "notify-reverse"}})
+		}
+	case <-time.After(3 * time.Second):
+		res.Add(fw.Finding{Kind: "monitor", Signature: sig + " later call blocked", Detail: "an ordinary call after the notification did not return within 3s", Case: map[string]interface{}{"scenario": "notify-reverse"}})
+	}
+	res.Count("notify-reverse")
+	res.Eval(true, []interface{}{"c16", "notify-reverse"})
+	return nil
+}
+
 func Absent(d *fw.Driver, res *fw.Result, seed int64) error {
 	for _, reverse := range []bool{true, false} {
 		w, err := newWorld(seed, reverse)
@@ -762,6 +807,10 @@ func Run(d *fw.Driver, res *fw.Result, seed int64, thorough bool) error {
 		if err := NotifyGone(res, seed+int64(j), k, base); err != nil {
 			return err
 		}
+	}
+	base += 1000
+	if err := NotifyReverse(res, seed, base); err != nil {
+		return err
 	}
 	return Absent(d, res, seed)
 }
